@@ -2,7 +2,7 @@
    skipped (csv_comments_safe), witnesses of the excluded classes; '%.4f' (nearest, ties to even,
    monotone, unit interval, digits round trip). *)
 From Coq Require Import ZArith List Bool Lia.
-From CTM Require Import Base.Sx Model.Output Model.CsvText Proofs.OutputP.
+From CTM Require Import Base.Sx Base.SortX Model.Output Model.CsvText Proofs.OutputP.
 Import ListNotations.
 Open Scope Z_scope.
 
@@ -254,10 +254,10 @@ Proof.
 Qed.
 
 Lemma row_parse cm r dn rest :
-  row_ok cm r = true ->
+  row_tok cm r = true ->
   run cm SR (mkAcc [] [] dn) (csv_row r ++ rest) = run cm SR (mkAcc [] [] (r :: dn)) rest.
 Proof.
-  unfold row_ok. intros H. apply andb_true_iff in H as [Hok Hshape].
+  unfold row_tok. intros H. apply andb_true_iff in H as [Hok Hshape].
   destruct r as [|f t]; [discriminate Hshape|].
   cbn [forallb] in Hok. apply andb_true_iff in Hok as [Hf Ht].
   destruct t as [|g t'].
@@ -280,12 +280,12 @@ Proof.
 Qed.
 
 Lemma text_parse cm : forall rows dn rest,
-  well_shaped cm rows = true ->
+  well_tok cm rows = true ->
   run cm SR (mkAcc [] [] dn) (csv_text rows ++ rest) = run cm SR (mkAcc [] [] (rev rows ++ dn)) rest.
 Proof.
   induction rows as [|r t IH]; intros dn rest Hw.
   - reflexivity.
-  - unfold well_shaped in Hw. cbn [forallb] in Hw. apply andb_true_iff in Hw as [Hr Ht].
+  - unfold well_tok in Hw. cbn [forallb] in Hw. apply andb_true_iff in Hw as [Hr Ht].
     unfold csv_text. cbn [map concat]. rewrite <- app_assoc.
     rewrite row_parse by assumption. fold (csv_text t). rewrite IH by assumption.
     cbn [rev]. rewrite <- app_assoc. reflexivity.
@@ -298,6 +298,7 @@ Proof.
   induction body as [|c t IH]; intros a rest Hok.
   - reflexivity.
   - unfold comment_ok in Hok. cbn [forallb] in Hok. apply andb_true_iff in Hok as [Hc Ht].
+    apply andb_true_iff in Hc as [Hc _].
     apply andb_true_iff in Hc as [H1 H2]. apply negb_true_iff in H1. apply negb_true_iff in H2.
     cbn [app]. rewrite run_cons.
     assert (Hs : step true CML a c = (CML, a)).
@@ -321,13 +322,38 @@ Proof.
 Qed.
 
 (* ------------------------------------------------------------------ the round trip *)
-Theorem csv_roundtrip_gen cm rows :
-  well_shaped cm rows = true -> csv_parse cm (csv_text rows) = Some rows.
+(* for the tokenizer model as such ... *)
+Theorem csv_roundtrip_tok cm rows :
+  well_tok cm rows = true -> csv_parse cm (csv_text rows) = Some rows.
 Proof.
   intros Hw. unfold csv_parse, acc0.
   rewrite <- (app_nil_r (csv_text rows)). rewrite text_parse by assumption.
   cbn [run fst snd finish a_done]. rewrite app_nil_r, rev_involutive. reflexivity.
 Qed.
+
+Theorem csv_comments_safe_tok bodies rows :
+  forallb comment_ok bodies = true -> well_tok true rows = true ->
+  csv_parse true (csv_file bodies rows) = Some rows.
+Proof.
+  intros Hb Hw. unfold csv_parse, acc0, csv_file.
+  rewrite comments_skipped by assumption.
+  rewrite <- (app_nil_r (csv_text rows)). rewrite text_parse by assumption.
+  cbn [run fst snd finish a_done]. rewrite app_nil_r, rev_involutive. reflexivity.
+Qed.
+
+(* ... and on the tables where the model is the real reader (well_shaped = well_tok + the first field of a
+   row does not start with an unquoted blank + every code point is a Unicode scalar value other than NUL) *)
+Lemma well_shaped_tok cm rows : well_shaped cm rows = true -> well_tok cm rows = true.
+Proof.
+  unfold well_shaped, well_tok. induction rows as [|r t IH]; [reflexivity|]. cbn [forallb].
+  intros H. apply andb_true_iff in H as [Hr Ht]. unfold row_ok in Hr.
+  apply andb_true_iff in Hr as [Hr _]. apply andb_true_iff in Hr as [Hr _].
+  rewrite Hr, (IH Ht). reflexivity.
+Qed.
+
+Theorem csv_roundtrip_gen cm rows :
+  well_shaped cm rows = true -> csv_parse cm (csv_text rows) = Some rows.
+Proof. intros H. apply csv_roundtrip_tok, well_shaped_tok, H. Qed.
 
 Theorem csv_roundtrip rows :
   well_shaped false rows = true -> csv_parse false (csv_text rows) = Some rows.
@@ -336,11 +362,27 @@ Proof. apply csv_roundtrip_gen. Qed.
 Theorem csv_comments_safe bodies rows :
   forallb comment_ok bodies = true -> well_shaped true rows = true ->
   csv_parse true (csv_file bodies rows) = Some rows.
+Proof. intros Hb Hw. apply csv_comments_safe_tok; [exact Hb | apply well_shaped_tok, Hw]. Qed.
+
+(* on a well_shaped table the reader never enters the WHITESPACE_LINE state at the start of a row -- the only
+   state in which pandas' tokenizer looks back into its buffer (and loses blanks at a chunk boundary): the
+   first character of the text of a row is not a blank *)
+Lemma row_text_starts_nonblank cm r :
+  row_ok cm r = true -> match csv_row r with c :: _ => is_blank c = false | [] => False end.
 Proof.
-  intros Hb Hw. unfold csv_parse, acc0, csv_file.
-  rewrite comments_skipped by assumption.
-  rewrite <- (app_nil_r (csv_text rows)). rewrite text_parse by assumption.
-  cbn [run fst snd finish a_done]. rewrite app_nil_r, rev_involutive. reflexivity.
+  unfold row_ok. intros H. apply andb_true_iff in H as [H _]. apply andb_true_iff in H as [Ht Hf].
+  destruct r as [|f t]; [unfold row_tok in Ht; rewrite andb_false_r in Ht; discriminate|].
+  cbn [first_ok] in Hf.
+  assert (Hfield : match csv_field f ++ [c_comma] with c :: _ => is_blank c = false | [] => False end).
+  { unfold csv_field. destruct (needs_quote f); [reflexivity|]. cbn [orb] in Hf.
+    destruct f as [|c f']; [reflexivity|]. cbn [app]. apply negb_true_iff. exact Hf. }
+  unfold csv_row. destruct f as [|c f'].
+  - destruct t as [|g t']; [reflexivity|]. cbn [join_fields]. reflexivity.
+  - assert (Hjoin : forall tl, match join_fields ((c :: f') :: tl) ++ [c_lf] with x :: _ => is_blank x = false | [] => False end).
+    { intros tl. cbn [join_fields]. unfold csv_field in *. destruct (needs_quote (c :: f')).
+      - destruct tl; reflexivity.
+      - cbn [orb] in Hf. apply negb_true_iff in Hf. destruct tl; cbn [app]; exact Hf. }
+    apply Hjoin.
 Qed.
 
 (* well_shaped true is stronger than well_shaped false *)
@@ -594,9 +636,9 @@ Proof.
     rewrite IH by assumption. reflexivity.
 Qed.
 
-Theorem fixed4_roundtrip k : 0 <= k -> parse_fixed4 (fixed4 k) = Some k.
+Theorem fixed4u_roundtrip k : 0 <= k -> parse_fixed4u (fixed4 k) = Some k.
 Proof.
-  intros Hk. unfold parse_fixed4, fixed4.
+  intros Hk. unfold parse_fixed4u, fixed4.
   assert (Hq : 0 <= k / 10000) by (apply Z.div_pos; lia).
   pose proof (Z.mod_pos_bound k 10000 ltac:(lia)) as Hr.
   cbn [app]. rewrite split_dot_digits.
@@ -610,11 +652,40 @@ Proof.
   pose proof (Z.div_mod k 10000 ltac:(lia)). lia.
 Qed.
 
+(* the text of a non-negative number starts with a digit, not with '-' *)
+Lemma fixed4_head k : 0 <= k -> exists c t, fixed4 k = c :: t /\ is_digit c = true.
+Proof.
+  intros Hk. unfold fixed4.
+  assert (Hq : 0 <= k / 10000) by (apply Z.div_pos; lia).
+  pose proof (digits_nonempty (k / 10000)) as Hne.
+  assert (Hd : forallb is_digit (digits (k / 10000)) = true).
+  { unfold digits. apply dig_digits; [assumption|reflexivity]. }
+  destruct (digits (k / 10000)) as [|c0 t0]; [congruence|].
+  cbn [forallb] in Hd. apply andb_true_iff in Hd as [Hc _].
+  exists c0. eexists. split; [reflexivity | exact Hc].
+Qed.
+
+Theorem fixed4_roundtrip k : 0 <= k -> parse_fixed4 (fixed4 k) = Some k.
+Proof.
+  intros Hk. destruct (fixed4_head k Hk) as (c & t & E & Hc).
+  unfold parse_fixed4. rewrite E. unfold is_digit in Hc. apply andb_true_iff in Hc as [Hlo _].
+  apply Z.leb_le in Hlo. destruct (c =? 45) eqn:E45; [apply Z.eqb_eq in E45; lia|].
+  rewrite <- E. apply fixed4u_roundtrip. exact Hk.
+Qed.
+
+(* both signs: '%.4f' of x = (-1)^neg * m * 2^e reads back as (-1)^neg * fmt4k m e; '-0.0000' (a negative
+   zero, or a negative value that rounds to zero) reads as 0 *)
+Theorem fmt4_text_roundtrip_signed neg m e :
+  0 <= m -> parse_fixed4 (fmt4_text neg m e) = Some (if neg then - fmt4k m e else fmt4k m e).
+Proof.
+  intros Hm. pose proof (fmt4k_nonneg m e Hm) as Hk. unfold fmt4_text. destruct neg; cbn [app].
+  - unfold parse_fixed4. change (45 =? 45) with true. cbv iota. rewrite fixed4u_roundtrip by exact Hk. reflexivity.
+  - apply fixed4_roundtrip. exact Hk.
+Qed.
+
 Theorem fmt4_text_roundtrip m e :
   0 <= m -> parse_fixed4 (fmt4_text false m e) = Some (fmt4k m e).
-Proof.
-  intros Hm. unfold fmt4_text. cbn [app]. apply fixed4_roundtrip. apply fmt4k_nonneg. exact Hm.
-Qed.
+Proof. intros Hm. exact (fmt4_text_roundtrip_signed false m e Hm). Qed.
 
 Lemma dyadic_value m e s :
   0 <= s -> 0 <= e + s ->
@@ -632,4 +703,112 @@ Lemma csv_text_injective r1 r2 :
 Proof.
   intros H1 H2 E. pose proof (csv_roundtrip r1 H1) as P1. pose proof (csv_roundtrip r2 H2) as P2.
   rewrite E in P1. congruence.
+Qed.
+
+(* ------------------------------------------------------------------ negative values *)
+Lemma rhe_opp n d : 0 < d -> round_half_even (- n, d) = - round_half_even (n, d).
+Proof.
+  intros Hd. unfold round_half_even.
+  pose proof (Z.div_mod n d ltac:(lia)) as Hdm.
+  pose proof (Z.mod_pos_bound n d Hd) as Hb.
+  pose proof (Z.div_mod (- n) d ltac:(lia)) as Hdm'.
+  pose proof (Z.mod_pos_bound (- n) d Hd) as Hb'.
+  set (q := n / d) in *. set (r := n mod d) in *.
+  set (q' := - n / d) in *. set (r' := - n mod d) in *.
+  assert (Hs : d * (q + q') = - (r + r')) by lia.
+  assert (Hs2 : -2 < q + q' < 1) by nia.
+  assert (Hq : (q + q' = 0 /\ r = 0 /\ r' = 0) \/ (q + q' = -1 /\ r + r' = d)).
+  { destruct (Z.eq_dec (q + q') 0) as [E0|E0]; [left; rewrite E0 in Hs; lia|].
+    right. assert (E1 : q + q' = -1) by lia. rewrite E1 in Hs. lia. }
+  destruct (2 * r <? d) eqn:E1; destruct (2 * r' <? d) eqn:E1';
+    destruct (d <? 2 * r) eqn:E2; destruct (d <? 2 * r') eqn:E2';
+    try apply Z.ltb_lt in E1; try apply Z.ltb_ge in E1; try apply Z.ltb_lt in E1'; try apply Z.ltb_ge in E1';
+    try apply Z.ltb_lt in E2; try apply Z.ltb_ge in E2; try apply Z.ltb_lt in E2'; try apply Z.ltb_ge in E2';
+    try lia.
+  assert (Hq' : q' = - Z.succ q) by lia.
+  rewrite Hq', Z.even_opp, Z.even_succ, <- Z.negb_even. destruct (Z.even q); cbn [negb]; lia.
+Qed.
+
+Lemma fmt4_opp n d : 0 < d -> fmt4 (- n, d) = - fmt4 (n, d).
+Proof.
+  intros Hd. unfold fmt4. cbn [fst snd]. replace (- n * 10000) with (- (n * 10000)) by lia.
+  apply rhe_opp. exact Hd.
+Qed.
+
+Lemma fmt4_nonneg n d : 0 <= n -> 0 < d -> 0 <= fmt4 (n, d).
+Proof.
+  intros Hn Hd. change 0 with (fmt4 (0, 1)) at 1. apply fmt4_mono; cbn [fst snd]; lia.
+Qed.
+
+(* the confidence field of the text reads back (digits '.' four digits, optional '-') as the JSON value
+   rounded to four decimals: fmt4 x is what c15_four_decimals bounds *)
+Theorem fmt4_rat_text_parse (x : rat) : 0 < snd x -> parse_fixed4 (fmt4_rat_text x) = Some (fmt4 x).
+Proof.
+  destruct x as [n d]; cbn [fst snd]; intros Hd. unfold fmt4_rat_text. cbn [fst snd].
+  destruct (n <? 0) eqn:E.
+  - apply Z.ltb_lt in E. unfold parse_fixed4. change (45 =? 45) with true. cbv iota.
+    rewrite fixed4u_roundtrip by (apply fmt4_nonneg; lia). cbn [option_map].
+    rewrite fmt4_opp by exact Hd. f_equal. lia.
+  - apply Z.ltb_ge in E. apply fixed4_roundtrip. apply fmt4_nonneg; lia.
+Qed.
+
+(* on a double (-1)^neg * m * 2^e (not the negative zero) the text is what '%.4f' prints *)
+Lemma fmt4_rat_text_dyadic (neg : bool) (m e : Z) :
+  (if neg then 0 < m else 0 <= m) ->
+  fmt4_rat_text (dyadic (if neg then - m else m) e) = fmt4_text neg m e.
+Proof.
+  intros Hm. unfold fmt4_rat_text, fmt4_text, fmt4k, dyadic.
+  destruct neg; destruct (0 <=? e) eqn:E; cbn [fst snd app].
+  - apply Z.leb_le in E. pose proof (Z.pow_pos_nonneg 2 e ltac:(lia) E) as Hp.
+    assert (Hlt : (- m * 2 ^ e <? 0) = true) by (apply Z.ltb_lt; nia).
+    rewrite Hlt. replace (- (- m * 2 ^ e)) with (m * 2 ^ e) by lia. reflexivity.
+  - assert (Hlt : (- m <? 0) = true) by (apply Z.ltb_lt; lia).
+    rewrite Hlt. rewrite Z.opp_involutive. reflexivity.
+  - apply Z.leb_le in E. pose proof (Z.pow_pos_nonneg 2 e ltac:(lia) E) as Hp.
+    assert (Hlt : (m * 2 ^ e <? 0) = false) by (apply Z.ltb_ge; nia).
+    rewrite Hlt. reflexivity.
+  - assert (Hlt : (m <? 0) = false) by (apply Z.ltb_ge; lia).
+    rewrite Hlt. reflexivity.
+Qed.
+
+(* ------------------------------------------------------------------ the file of a blob *)
+Theorem csv_text_of_blob names reprs repo version nm hier meta algo conf sticky categ b text :
+  (conf < 2)%nat ->
+  NoDup (map (level_to_name nm) hier) ->
+  blob_to_csv_text names reprs repo version nm hier meta algo conf sticky categ b = Ok text ->
+  exists cols rows,
+    let bodies := csv_comment_bodies names repo version nm hier meta algo in
+    let table := map (col_name names conf) cols :: rows in
+    text = csv_file bodies table /\
+    (forallb comment_ok bodies = true -> well_shaped true table = true -> csv_parse true text = Some table) /\
+    length rows = length b /\
+    forall i cl row,
+      nth_error b i = Some cl -> nth_error rows i = Some row ->
+      tget cols row KId = Some (name_str names (c_id cl)) /\
+      forall j level l,
+        nth_error hier j = Some level -> nth_error (c_levels cl) j = Some l ->
+        let rl := level_to_name nm level in
+        tget cols row (KLabel rl) = Some (name_str names (l_assign l)) /\
+        tget cols row (KName rl) = Some (name_str names (label_to_name nm level (l_assign l) false)) /\
+        (S j = length hier ->
+           tget cols row (KAlias rl) = Some (name_str names (label_to_name nm level (l_assign l) true))) /\
+        tget cols row (KField rl conf) =
+          Some (if zmem rl categ
+                then match rassoc (conf_value conf l) reprs with Some s => s | None => [] end
+                else fmt4_rat_text (conf_value conf l)).
+Proof.
+  intros Hconf Hnd H. unfold blob_to_csv_text, blob_to_csv_table in H.
+  destruct (blob_to_table (fun k v => cell_text names reprs (col_categ categ k) v) nm hier conf sticky b)
+    as [[cols rows]|] eqn:E; cbn [bind fst snd] in H; [|discriminate].
+  apply Ok_inj in H. exists cols, rows. cbv zeta.
+  split; [symmetry; exact H|]. split.
+  - intros Hb Hw. rewrite <- H. apply csv_comments_safe; assumption.
+  - destruct (table_rows _ nm hier conf sticky b cols rows Hconf Hnd E) as (Hlen & Hrows).
+    split; [exact Hlen|].
+    intros i cl row Hbi Hrow. destruct (Hrows i cl row Hbi Hrow) as (Hid & Hlv).
+    split; [exact Hid|].
+    intros j level l Hh Hl. pose proof (Hlv j level l Hh Hl) as Hx. cbv zeta in Hx.
+    destruct Hx as (HA & HB & HC & HD).
+    split; [exact HA|]. split; [exact HB|]. split; [exact HC|].
+    rewrite HD. cbn. reflexivity.
 Qed.
